@@ -298,8 +298,12 @@ class Check:
         if bad:
             self.breaks.append({"kind": "K", "name": "correspondence-" + name, "detail": "model and implementation disagree", "cases": bad[:10]})
         # M: monitor failures
-        kf = [k for k in known_findings() if k["property"] == self.pid]
+        allk = known_findings()
+        kf = [k for k in allk if k["property"] == self.pid]
         kclasses = {k["class"]: k for k in kf}
+        # a shared engine replays the witnesses of every property it serves: a class listed as a
+        # known finding of ANOTHER property is that property's business, not a new violation here
+        foreign = {k["class"] for k in allk if k["property"] != self.pid} - set(kclasses)
         seen = set()
         import re as _re
         mine = []
@@ -307,6 +311,8 @@ class Check:
             m = _re.match(r"^(C\d\d)-", mf["class"])
             if m and m.group(1) != self.pid:
                 continue  # a shared engine also evaluates the monitors of its other properties
+            if mf["class"] in foreign:
+                continue
             mine.append(mf)
         for mf in mine:
             if mf["class"] in kclasses:
